@@ -177,6 +177,7 @@ def per_circuit(chk, P, kname, c, fz, ft):
                             break
                 chk.ob("C11.Z.sensitization-endpoints", key, prob is None, file=FILE, func="sensitization_transform", line=fz.node.lineno, fact=prob or {"endpoint": e}, expect="sat == inverting n changes the selected endpoint")
         # ---- T / M: sensitivity_transform, sensitivity, influence --------
+        wants_by_node = {}
         for n in sorted(c.nodes()):
             sp = sorted(c.startpoints(n))
             if not sp or c.type(n) in ("0", "1"):
@@ -231,9 +232,33 @@ def per_circuit(chk, P, kname, c, fz, ft):
             ok = r[0] == "return" and isinstance(r[1], dict) and set(r[1]) == set(sp) and all(Fraction(r[1][s]).limit_denominator(1 << 20) == want[s] for s in sp)
             chk.ob("C11.M.influence", f"influence::{kname}::{n}", ok, file="props.py", func="influence", fact={"result": str(r)[:160], "expected": {s: str(want[s]) for s in sp}},
                    expect="fraction of valuations where flipping s flips n, per startpoint")
+            wants_by_node[n] = want
             r = P.call("props.py", "avg_sensitivity", c, n, False, False)
             n_eval += 1
             tot = sum(want.values())
             ok = r[0] == "return" and isinstance(r[1], (int, float)) and Fraction(r[1]).limit_denominator(1 << 20) == tot
             chk.ob("C11.M.avg_sensitivity", f"avg_sensitivity::{kname}::{n}", ok, file="props.py", func="avg_sensitivity", fact={"result": str(r)[:80], "expected": str(tot)}, expect=str(tot))
+        # several nodes in one call (their cones share startpoints): a dict per node, each as for the single-node call
+        many = sorted(wants_by_node)
+        if len(many) >= 2:
+            for order_name, ns_list in (("sorted", many), ("reversed", many[::-1])):
+                r = P.call("props.py", "influence", c, list(ns_list), False, False)
+                n_eval += 1
+                prob = None
+                if r[0] != "return" or not isinstance(r[1], dict) or set(r[1]) != set(many):
+                    prob = {"result": str(r)[:160]}
+                else:
+                    for n_ in many:
+                        got = r[1][n_]
+                        w_ = wants_by_node[n_]
+                        if not isinstance(got, dict) or set(got) != set(w_) or any(Fraction(got[s_]).limit_denominator(1 << 20) != w_[s_] for s_ in w_):
+                            prob = {"node": n_, "result": str(got)[:160], "expected": {s_: str(v_) for s_, v_ in w_.items()}}
+                            break
+                chk.ob("C11.M.influence", f"influence::{kname}::list of {len(many)} nodes::{order_name}", prob is None, file="props.py", func="influence", fact=prob or {"nodes": many},
+                       expect="for a list of nodes: per node, the same influences as the single-node call")
+                r = P.call("props.py", "avg_sensitivity", c, list(ns_list), False, False)
+                n_eval += 1
+                ok = r[0] == "return" and isinstance(r[1], dict) and set(r[1]) == set(many) and all(Fraction(r[1][n_]).limit_denominator(1 << 20) == sum(wants_by_node[n_].values()) for n_ in many)
+                chk.ob("C11.M.avg_sensitivity", f"avg_sensitivity::{kname}::list of {len(many)} nodes::{order_name}", ok, file="props.py", func="avg_sensitivity", fact={"result": str(r)[:160]},
+                       expect="for a list of nodes: per node, the sum of its influences")
     return n_eval
